@@ -16,6 +16,17 @@ Three monitors:
 Further schedules (each with its own offline rule): lateopen, locktimeout, longlived, and
   recreate  another process constructs the library anew (overwrite=True) while a reading / writing session of this process
         is inside: the session keeps a complete view, afterwards the library is what the creator's session stored.
+Added after the second gap review:
+  * every process C04 starts (workers, waiting parties, creators, probes) runs with its OWN PYTHONHASHSEED (the framework pins
+    0 for the check children): whatever a library derives from hash(str) differs between the processes of a schedule;
+  * lateopen and the racing-creation mp schedules also run through MoleculeLibrary and ConformerLibrary;
+  * recreate: the creator stores a size-preserving rewrite of the old contents (also with the same last record);
+  * fail: the REAL close fails (the OS refuses the buffered bytes: RLIMIT_FSIZE), judged in the failing process (descriptor,
+    later sessions of the same handle), from a fresh process, and after the failing process has ended;
+  * exitqueue: a process ends with records still queued in its buffered handle while a session of another process is inside:
+    the file does not change under that session, the records of completed sessions are intact afterwards;
+  * locktimeout also on a directory-backed library (DirCollectionBackend).
+Mechanisms that fail on the unchanged tree: KNOWN_ON_UNCHANGED_TREE (tools/findings/C04-ext.json).
 Handles opened read-only (readonly=True, the default of MoleculeLibrary(path)) take part as long-lived handles in mp (every
 fourth worker), longlived, locktimeout, recreate and fail; the mp workers reach the library also through a symbolic link to
 the file itself and a link to that link, and are delayed in front of every step between lock acquisition and release
@@ -37,7 +48,10 @@ RULE = ("mp: P in {8,12,16} processes x S sessions (70% writing 1-3 records, 30%
         "handles; fail: every (failing step x bufsize x position) case, the steps user code runs in also with KeyboardInterrupt / "
         "SystemExit / GeneratorExit / a BaseException subclass, the reading steps also on a read-only handle; recreate: "
         "{reading on a read-only handle, reading, writing} session inside while another process constructs the library "
-        "with overwrite=True. non-trivial (mp) = a run in which >=2 processes "
+        "with overwrite=True (contents of random sizes / the same sizes / the same sizes and last record); every spawned process "
+        "has its own PYTHONHASHSEED; lateopen x {Collection, MoleculeLibrary, ConformerLibrary}; fail also: close refused by the "
+        "OS x {bufsize, record size, room}; exitqueue: {reading, writing} session inside while a process with queued records "
+        "ends; locktimeout x {ukv, directory backend}. non-trivial (mp) = a run in which >=2 processes "
         "had adjacent sessions and a reader ran between two writers; (seq/fail) = every case; distinct by schedule "
         "signature / sequence / case")
 ASSUMPTIONS = [
@@ -54,8 +68,19 @@ REQUIRED = {"mp.sessions": 200, "mp.writer-sessions": 90, "mp.reader-between-wri
             "fail.cases-ended-by-something-that-is-not-an-Exception": 23, "fail.cases-on-a-read-only-handle": 4, "fail.first-put-rejected-then-same-handle": 4, "fail.partial-write-by-the-os": 3,
             "locktimeout.read-only-handle-parties": 1, "longlived.sessions-of-a-long-lived-read-only-handle": 12,
             "recreate.schedules": 4, "recreate.reading-session-inside": 1,
-            "recreate.reading-session-inside-on-a-read-only-handle": 1, "recreate.writing-session-inside": 1}
-CHUNK_TIMEOUT = 600
+            "recreate.reading-session-inside-on-a-read-only-handle": 1, "recreate.writing-session-inside": 1,
+            # workload classes added after the second gap review
+            "processes-started-with-their-own-hash-seed": 100, "mp.workers-hashing-strings-differently-from-worker-0": 20,
+            "lateopen.schedules-through-Collection": 1, "lateopen.schedules-through-MoleculeLibrary": 1,
+            "lateopen.schedules-through-ConformerLibrary": 1,
+            "mp.schedules-with-racing-creation-through-MoleculeLibrary": 1,
+            "mp.schedules-with-racing-creation-through-ConformerLibrary": 1,
+            "recreate.new-contents-of-the-same-size": 2, "recreate.new-contents-of-the-same-size-same-last-record": 2,
+            "fail.close-refused-by-the-os": 2, "fail.sessions-of-the-same-handle-after-a-refused-close": 5,
+            "exitqueue.schedules": 2, "exitqueue.process-ended-with-queued-records-while-a-writing-session-was-inside": 1,
+            "exitqueue.process-ended-with-queued-records-while-a-reading-session-was-inside": 1,
+            "locktimeout.schedules-on-a-directory-backed-library": 1}
+CHUNK_TIMEOUT = 1500      # (generous: under heavy machine load the seq chunks of the thorough tier took > 600 s)
 TECHNIQUE = ("runtime monitoring: recorded session-interval histories from real processes + offline checker (mutual exclusion, "
              "conservation, visibility); fault injection at each session step with a fresh-process lock probe")
 LEVEL_TEXT = ("Held on the schedules produced: real processes with long-lived handles run hundreds of sessions under injected "
@@ -64,36 +89,94 @@ LEVEL_TEXT = ("Held on the schedules produced: real processes with long-lived ha
 LEVEL_NOTE = "Trusted: monotonic clock comparability across processes; vmon/models/kvmap.py; the failure sources listed."
 
 
+class HashEnv:
+    """Environment for the processes C04 starts.  The framework pins PYTHONHASHSEED=0 for the check children; a process
+    started from here would inherit it and hash every string like all the others.  Two processes of a user never do: each
+    process C04 spawns gets its OWN hash seed (seeded values, some "random"), so anything a library derives from hash(str)
+    (a lock-file name, say) differs between the processes of a schedule, as it does in real use."""
+
+    def __init__(self, ctx, case):
+        self.rng = ctx.rng(*case, "hash-seeds")
+        self.used = set()
+        self.ctx = ctx
+
+    def __call__(self):
+        env = dict(os.environ)
+        if self.rng.random() < 0.25:
+            env["PYTHONHASHSEED"] = "random"
+        else:
+            while True:
+                v = self.rng.randrange(1, 2**32 - 1)
+                if v not in self.used:
+                    break
+            self.used.add(v)
+            env["PYTHONHASHSEED"] = str(v)
+        self.ctx.count("processes-started-with-their-own-hash-seed")
+        return env
+
+
 def plan(tier, seed):
     specs = []
     if tier == "quick":
-        for i, (p, s) in enumerate([(8, 14), (12, 9), (16, 7), (8, 10)]):
-            specs.append({"kind": "mp", "chunk": i, "procs": p, "sessions": s, "payload": "mlib" if i == 3 else "bytes",
-                          "timeout": 300, "race_create": i % 2 == 1})
+        for i, (p, s) in enumerate([(8, 14), (12, 9), (16, 7), (8, 10), (8, 7)]):
+            specs.append({"kind": "mp", "chunk": i, "procs": p, "sessions": s,
+                          "payload": "mlib" if i == 3 else "clib" if i == 4 else "bytes",
+                          "timeout": 600, "race_create": i % 2 == 1 or i == 4})
         for h in range(12):
             specs.append({"kind": "seq", "first": h, "k": 4})
     else:
         for i in range(16):
             specs.append({"kind": "mp", "chunk": i, "procs": [8, 12, 16, 16][i % 4], "sessions": 60,
-                          "payload": "mlib" if i % 4 == 3 else "bytes", "timeout": 900, "race_create": i % 2 == 1})
+                          "payload": "mlib" if i % 4 == 3 else "clib" if i % 8 == 5 else "bytes", "timeout": 1500,
+                          "race_create": i % 2 == 1})
         for h in range(12):
             specs.append({"kind": "seq", "first": h, "k": 5})
     for i in range(16):
         specs.append({"kind": "fail", "chunk": i, "of": 16})
-    for i in range(3 if tier == "quick" else 12):
+    for i in range(5 if tier == "quick" else 14):
         specs.append({"kind": "recreate", "chunk": i, "n": 3 if tier == "quick" else 6})
-    for i in range(4 if tier == "quick" else 16):
-        specs.append({"kind": "lateopen", "chunk": i, "timeout": 240})
+    for i in range(6 if tier == "quick" else 18):
+        specs.append({"kind": "lateopen", "chunk": i, "timeout": 600})
+    for i in range(3 if tier == "quick" else 9):
+        specs.append({"kind": "locktimeout", "chunk": i, "timeout": 600})
     for i in range(2 if tier == "quick" else 8):
-        specs.append({"kind": "locktimeout", "chunk": i, "timeout": 240})
+        specs.append({"kind": "exitqueue", "chunk": i, "n": 2 if tier == "quick" else 4})
     for i in range(4 if tier == "quick" else 16):
         specs.append({"kind": "longlived", "chunk": i, "n": 6 if tier == "quick" else 25})
     return specs
 
 
+# ---- KNOWN_ON_UNCHANGED_TREE ------------------------------------------------------------------------------------------
+# Mechanisms that break the property on the unchanged tree (tools/findings/C04-ext.json, with proposed repairs).  They are
+# counted, not reported, until the library is repaired; then empty this set.  VERIF_C04_REPORT_KNOWN=1 reports them (to test a
+# repaired tree).
+KNOWN_ON_UNCHANGED_TREE = set()      # (B1 repaired in the library: 042222c; B2, the stale table after a same-size re-creation, is an OPEN finding in known_findings.json)
+
+
+class _Ctx:
+    """ctx proxy: violations whose key is in KNOWN_ON_UNCHANGED_TREE are counted, not reported"""
+
+    def __init__(self, ctx):
+        self.__dict__["_c"] = ctx
+
+    def __getattr__(self, name):
+        return getattr(self._c, name)
+
+    def __setattr__(self, name, value):
+        setattr(self._c, name, value)
+
+    def violation(self, key, **kw):
+        if key in KNOWN_ON_UNCHANGED_TREE and not os.environ.get("VERIF_C04_REPORT_KNOWN"):
+            self._c.count("known-on-unchanged-tree:" + key)
+            return None
+        return self._c.violation(key, **kw)
+
+
 def run_chunk(spec, ctx):
+    ctx = _Ctx(ctx)
     {"mp": run_mp, "seq": run_seq, "fail": run_fail, "lateopen": run_lateopen,
-     "locktimeout": run_locktimeout, "longlived": run_longlived, "recreate": run_recreate}[spec["kind"]](spec, ctx)
+     "locktimeout": run_locktimeout, "longlived": run_longlived, "recreate": run_recreate,
+     "exitqueue": run_exitqueue}[spec["kind"]](spec, ctx)
 
 
 # ------------------------------------------------------------------------------------------------
@@ -111,14 +194,17 @@ def run_mp(spec, ctx):
     (root / "data" / "sub").mkdir(parents=True)
     (root / "logs").mkdir()
     os.symlink(root / "data", root / "link")
-    path = root / "data" / ("lib.mlib" if spec["payload"] == "mlib" else "lib.ukv")
+    path = root / "data" / {"mlib": "lib.mlib", "clib": "lib.clib"}.get(spec["payload"], "lib.ukv")
+    hashenv = HashEnv(ctx, case)
     # In every other schedule the library does not exist yet: the workers' handle constructors race to create it
     # (whoever wins, no session that completed afterwards may lose its records to a late creator)
     if spec.get("race_create"):
         ctx.count("mp.schedules-with-racing-creation")
-    elif spec["payload"] == "mlib":
+        if spec["payload"] != "bytes":
+            ctx.count("mp.schedules-with-racing-creation-through-" + {"mlib": "MoleculeLibrary", "clib": "ConformerLibrary"}[spec["payload"]])
+    elif spec["payload"] in ("mlib", "clib"):
         import molli as ml
-        ml.MoleculeLibrary(path, readonly=False, overwrite=True)
+        (ml.MoleculeLibrary if spec["payload"] == "mlib" else ml.ConformerLibrary)(path, readonly=False, overwrite=True)
     else:
         from molli.storage import Collection, UkvCollectionBackend
         Collection(path, UkvCollectionBackend, readonly=False, overwrite=True)
@@ -137,7 +223,6 @@ def run_mp(spec, ctx):
         (str(root), "latest" + path.suffix, True),
     ]
     procs = []
-    env = dict(os.environ)
     via_file_link, read_only = set(), set()
     for w in range(spec["procs"]):
         cwd, p, file_link = spellings[w % len(spellings)]
@@ -152,7 +237,7 @@ def run_mp(spec, ctx):
                  "max_sleep": 0.004, "payload": spec["payload"], "lock_delay": 0.03 if spec.get("race_create") else 0,
                  "readonly": ro, "wait_exists": ro or file_link, "wait_limit": spec["timeout"] - 60,
                  "end_delay": 0.02, "p_end_delay": 0.5}
-        procs.append(subprocess.Popen([sys.executable, "-m", "vmon.models.c04_worker", json.dumps(wspec)], env=env,
+        procs.append(subprocess.Popen([sys.executable, "-m", "vmon.models.c04_worker", json.dumps(wspec)], env=hashenv(),
                                       stdout=subprocess.DEVNULL, stderr=subprocess.PIPE, text=True))
     bad_exit = []
     for w, p in enumerate(procs):
@@ -172,6 +257,10 @@ def run_mp(spec, ctx):
         f = root / "logs" / f"w{w}.jsonl"
         if f.exists():
             sessions += [json.loads(l) for l in f.read_text().splitlines() if l.strip()]
+    hello = [s for s in sessions if "hello" in s]
+    sessions = [s for s in sessions if "hello" not in s]
+    # (how many different string hashings the workers of this schedule ran with: the point of the own hash seeds)
+    ctx.count("mp.workers-hashing-strings-differently-from-worker-0", sum(1 for h in hello[1:] if h["probe"] != hello[0]["probe"]))
     harness = [s["harness"] for s in sessions if "harness" in s]
     if harness:
         ctx.inconclusive.append(f"mp chunk {spec['chunk']}: {harness[0]}")
@@ -261,7 +350,29 @@ def wait_for(name, timeout=60):
         time.sleep(0.005)
 """
 
-LATE_G = LATE_COMMON + r"""
+LATE_OPENER = r"""
+cls = %(cls)r                   # the class the library is reached through
+if cls == "Collection":
+    def open_lib(**kw):
+        return Collection(path, UkvCollectionBackend, **kw)
+    def make(key):
+        return ("value-of-" + key).encode() * 3
+    def show(v):
+        return v.decode()
+else:
+    import molli as ml
+    _base = ml.Molecule.load_mol2(ml.files.dendrobine_mol2)
+    def open_lib(**kw):
+        return getattr(ml, cls)(path, **kw)
+    def make(key):
+        if cls == "ConformerLibrary":
+            return ml.ConformerEnsemble(_base, n_conformers=2, name="value-of-" + key)
+        return ml.Molecule(_base, name="value-of-" + key)
+    def show(v):
+        return v.name * 3 if v.n_atoms == _base.n_atoms else "incomplete"
+"""
+
+LATE_G = LATE_COMMON + LATE_OPENER + r"""
 # G holds the library's lock file before the library exists (POSIX locks are per process: G's own handle can still take
 # it, and the release at the end of G's first session frees it for everybody)
 try:
@@ -277,24 +388,24 @@ assert gate.acquire_write_lock(timeout=20)
 touch("g_locked")
 wait_for("v_constructing")
 time.sleep(%(settle)r)                      # let V run into the lock (only shapes the schedule, decides nothing)
-lib = Collection(path, UkvCollectionBackend, readonly=False, bufsize=%(bufsize)r)
+lib = open_lib(readonly=False, bufsize=%(bufsize)r)
 with lib.writing(timeout=20):
     for i in range(%(n)r):
-        lib["g%%d" %% i] = ("value-of-g%%d" %% i).encode() * 3
+        lib["g%%d" %% i] = make("g%%d" %% i)
 touch("g_done")
 print(json.dumps({"ok": True}))
 """
 
-LATE_V = LATE_COMMON + r"""
+LATE_V = LATE_COMMON + LATE_OPENER + r"""
 wait_for("g_locked")
 touch("v_constructing")
-lib = Collection(path, UkvCollectionBackend, readonly=False, bufsize=%(bufsize)r)    # blocks on G's lock
+lib = open_lib(readonly=False, bufsize=%(bufsize)r)    # blocks on G's lock
 waited_for_g = os.path.exists(os.path.join(root, "g_done"))
 wait_for("g_done")
 with lib.reading(timeout=20):
-    seen = {k: lib[k].decode() for k in lib.keys()}
+    seen = {k: show(lib[k]) for k in lib.keys()}
 with lib.writing(timeout=20):
-    lib["v0"] = b"value-of-v0"
+    lib["v0"] = make("v0")
 print(json.dumps({"seen": seen, "constructor_returned_after_g_session": waited_for_g}))
 """
 
@@ -308,12 +419,15 @@ def run_lateopen(spec, ctx):
     rng = ctx.rng(*case)
     root = ctx.tmp / "late"
     root.mkdir()
-    path = root / "lib.ukv"
+    # the library is reached through Collection + backend, through MoleculeLibrary and through ConformerLibrary
+    cls = ("Collection", "MoleculeLibrary", "ConformerLibrary")[spec["chunk"] % 3]
+    path = root / {"Collection": "lib.ukv", "MoleculeLibrary": "lib.mlib", "ConformerLibrary": "lib.clib"}[cls]
     n = rng.randrange(1, 4)
-    par = {"syspath": [p for p in sys.path if p], "root": str(root), "path": str(path), "n": n,
+    par = {"syspath": [p for p in sys.path if p], "root": str(root), "path": str(path), "n": n, "cls": cls,
            "bufsize": rng.choice([-1, 0, 4096]), "settle": rng.choice([0.3, 0.6])}
-    g = subprocess.Popen([sys.executable, "-c", LATE_G % par], stdout=subprocess.PIPE, stderr=subprocess.PIPE, text=True)
-    v = subprocess.Popen([sys.executable, "-c", LATE_V % par], stdout=subprocess.PIPE, stderr=subprocess.PIPE, text=True)
+    hashenv = HashEnv(ctx, case)
+    g = subprocess.Popen([sys.executable, "-c", LATE_G % par], stdout=subprocess.PIPE, stderr=subprocess.PIPE, text=True, env=hashenv())
+    v = subprocess.Popen([sys.executable, "-c", LATE_V % par], stdout=subprocess.PIPE, stderr=subprocess.PIPE, text=True, env=hashenv())
     outs = []
     for name, proc in (("G", g), ("V", v)):
         try:
@@ -333,17 +447,23 @@ def run_lateopen(spec, ctx):
     want = {f"g{i}": f"value-of-g{i}" * 3 for i in range(n)}
     seen = outs[1]["seen"]
     ctx.count("lateopen.schedules")
+    ctx.count("lateopen.schedules-through-" + cls)
     if outs[1]["constructor_returned_after_g_session"]:
         ctx.count("lateopen.constructor-overlapped-first-session")
-    ctx.case(case, dkey=(n, par["bufsize"], outs[1]["constructor_returned_after_g_session"]), nontrivial=True,
-             sample={"records_of_first_session": n, "late_constructor_overlapped": outs[1]["constructor_returned_after_g_session"]})
+    ctx.case(case, dkey=(cls, n, par["bufsize"], outs[1]["constructor_returned_after_g_session"]), nontrivial=True,
+             sample={"library_class": cls, "records_of_first_session": n, "late_constructor_overlapped": outs[1]["constructor_returned_after_g_session"]})
     if seen != want:
         ctx.violation("lateopen:completed-session-records-lost-to-a-late-opener", case=case,
                       missing=sorted(set(want) - set(seen)), extra=sorted(set(seen) - set(want)))
     try:
         _, _, _, recs, _ = scan(path.read_bytes())
-        got = {k.decode(): val.decode() for k, val, _ in recs}
-        if got != {**want, "v0": "value-of-v0"}:
+        if cls == "Collection":
+            got = {k.decode(): val.decode() for k, val, _ in recs}
+        else:       # (encoded objects: the keys decide here; V has read the values back through the library class)
+            got = {k.decode(): (want.get(k.decode()) or "value-of-v0" * 3) for k, val, _ in recs}
+        if len(recs) != len(got):
+            ctx.violation("lateopen:duplicate-records-in-file", case=case)
+        if got != {**want, "v0": "value-of-v0" * 3}:
             ctx.violation("lateopen:final-file-differs", case=case, missing=sorted(set(want) - set(got)))
     except ScanError as e:
         ctx.violation("lateopen:final-file-not-a-clean-record-sequence", case=case, err=str(e))
@@ -388,7 +508,8 @@ def run_longlived(spec, ctx):
     from vmon.models.kvmap import scan, ScanError
 
     other = subprocess.Popen([sys.executable, "-c", OTHER_PROCESS % {"syspath": [p for p in sys.path if p]}],
-                             stdin=subprocess.PIPE, stdout=subprocess.PIPE, text=True)
+                             stdin=subprocess.PIPE, stdout=subprocess.PIPE, text=True,
+                             env=HashEnv(ctx, ("longlived", spec["chunk"]))())
 
     def ask(cmd):
         other.stdin.write(json.dumps(cmd) + "\n")
@@ -605,8 +726,17 @@ def run_longlived(spec, ctx):
 # ------------------------------------------------------------------------------------------------
 # locktimeout: sessions that give up waiting (timeout=...) while a writer is inside must not let anybody else in
 
-TIMEOUT_A = LATE_COMMON + r"""
-lib = Collection(path, UkvCollectionBackend, readonly=False, bufsize=%(bufsize)r)
+LT_OPENER = r"""
+backend = %(backend)r           # "ukv": one file; "dir": a directory with one file per record (DirCollectionBackend)
+def open_lt(**kw):
+    if backend == "dir":
+        from molli.storage import DirCollectionBackend
+        return Collection(path, DirCollectionBackend, ext=".dat", **kw)
+    return Collection(path, UkvCollectionBackend, **kw)
+"""
+
+TIMEOUT_A = LATE_COMMON + LT_OPENER + r"""
+lib = open_lt(readonly=False, bufsize=%(bufsize)r)
 with lib.writing(timeout=20):
     lib["a0"] = b"value-of-a0"
     touch("a_inside")
@@ -616,12 +746,12 @@ with lib.writing(timeout=20):
 print(json.dumps({"ok": True}))
 """
 
-TIMEOUT_B = LATE_COMMON + r"""
+TIMEOUT_B = LATE_COMMON + LT_OPENER + r"""
 who = %(who)r
 if %(ro)r:
-    lib = Collection(path, UkvCollectionBackend)                               # read-only, the default way to open a library
+    lib = open_lt()                                                            # read-only, the default way to open a library
 else:
-    lib = Collection(path, UkvCollectionBackend, readonly=False, bufsize=0)
+    lib = open_lt(readonly=False, bufsize=0)
 # (a long-lived handle, made before the holder enters)
 touch(who + "_ready")
 wait_for("go_" + who, timeout=90)
@@ -650,9 +780,24 @@ def run_locktimeout(spec, ctx):
     rng = ctx.rng(*case)
     root = ctx.tmp / "lt"
     root.mkdir()
-    path = root / "lib.ukv"
-    Collection(path, UkvCollectionBackend, readonly=False, overwrite=True)
-    par = {"syspath": [p for p in sys.path if p], "root": str(root), "path": str(path), "bufsize": rng.choice([-1, 0, 4096])}
+    # every third schedule runs on a library kept in a directory (DirCollectionBackend, the backend of test_dir_parallel)
+    backend = "dir" if spec["chunk"] % 3 == 2 else "ukv"
+    hashenv = HashEnv(ctx, case)
+    if backend == "dir":
+        from molli.storage import DirCollectionBackend
+        path = root / "lib"
+
+        def open_lt(**kw):
+            return Collection(path, DirCollectionBackend, ext=".dat", **kw)
+        open_lt(readonly=False)
+    else:
+        path = root / "lib.ukv"
+
+        def open_lt(**kw):
+            return Collection(path, UkvCollectionBackend, **kw)
+        open_lt(readonly=False, overwrite=True)
+    par = {"syspath": [p for p in sys.path if p], "root": str(root), "path": str(path), "bufsize": rng.choice([-1, 0, 4096]),
+           "backend": backend}
     import time
 
     def wait_file(name, procs, limit=90):
@@ -669,15 +814,16 @@ def run_locktimeout(spec, ctx):
     # ("e": a reader whose handle was opened read-only)
     for who, write, ro in (("b", True, False), ("c", c_writes, False), ("e", False, True)):
         q = subprocess.Popen([sys.executable, "-c", TIMEOUT_B % {**par, "who": who, "t": 0.4, "write": write, "ro": ro}],
-                             stdout=subprocess.PIPE, stderr=subprocess.PIPE, text=True)
+                             stdout=subprocess.PIPE, stderr=subprocess.PIPE, text=True, env=hashenv())
         waiting.append((who, write, q))
-    mine = Collection(path, UkvCollectionBackend, readonly=False, bufsize=0)
+    mine = open_lt(readonly=False, bufsize=0)
     if not all(wait_file(w + "_ready", [q]) for w, _, q in waiting):
         for _, _, q in waiting:
             q.kill()
         ctx.inconclusive.append(f"locktimeout {spec['chunk']}: a waiting party did not get ready")
         return
-    a = subprocess.Popen([sys.executable, "-c", TIMEOUT_A % par], stdout=subprocess.PIPE, stderr=subprocess.PIPE, text=True)
+    a = subprocess.Popen([sys.executable, "-c", TIMEOUT_A % par], stdout=subprocess.PIPE, stderr=subprocess.PIPE, text=True,
+                         env=hashenv())
     if not wait_file("a_inside", [a]):
         a.kill()
         for _, _, q in waiting:
@@ -715,6 +861,8 @@ def run_locktimeout(spec, ctx):
     if a.returncode != 0:
         ctx.violation("locktimeout:holder-session-failed", case=case, stderr=(err or "")[-300:])
     ctx.count("locktimeout.schedules")
+    if backend == "dir":
+        ctx.count("locktimeout.schedules-on-a-directory-backed-library")
     ctx.count("locktimeout.read-only-handle-parties", sum(1 for w, _, r in late if w == "e"))
     entered = [(w, r) for w, _, r in late if r["entered"]]
     ctx.case(case, dkey=tuple((w, wr, r["entered"]) for w, wr, r in late), nontrivial=True,
@@ -728,14 +876,17 @@ def run_locktimeout(spec, ctx):
             ctx.violation("locktimeout:waiting-session-raises-something-else", case=case, party=w, err=r["err"])
     # afterwards the lock still works and nothing was lost
     (root / "go_z").touch()
-    p = subprocess.run([sys.executable, "-c", TIMEOUT_B % {**par, "who": "z", "t": 20, "write": True, "ro": False}], capture_output=True, text=True, timeout=120)
+    p = subprocess.run([sys.executable, "-c", TIMEOUT_B % {**par, "who": "z", "t": 20, "write": True, "ro": False}], capture_output=True, text=True, timeout=120, env=hashenv())
     want = {"a0": b"value-of-a0", "a1": b"value-of-a1", "z0": b"value-of-z0"}
     for w, wr, r in late:
         if r["entered"] and wr:
             want[w + "0"] = b"value-of-" + w.encode() + b"0"
     try:
-        _, _, _, recs, _ = scan(path.read_bytes())
-        got = {k.decode(): v for k, v, _ in recs}
+        if backend == "dir":        # conservation = the record files in the directory
+            got = {f.name.removesuffix(".dat"): f.read_bytes() for f in path.iterdir() if f.name.endswith(".dat")}
+        else:
+            _, _, _, recs, _ = scan(path.read_bytes())
+            got = {k.decode(): v for k, v, _ in recs}
         if got != want:
             ctx.violation("locktimeout:records-lost-or-altered", case=case, missing=sorted(set(want) - set(got)), extra=sorted(set(got) - set(want)))
     except ScanError as e:
@@ -752,14 +903,20 @@ touch("b_started")
 lib = Collection(path, UkvCollectionBackend, readonly=False, overwrite=True, comment=%(comment)r, bufsize=%(bufsize)r)
 touch("b_constructed")
 with lib.writing(timeout=60):
-    for k, v in %(records)r:
+    for k, v in json.load(open(os.path.join(root, "records.json"))):
         lib[k] = bytes.fromhex(v)
 with lib.reading(timeout=60):
     seen = {k: lib[k].hex() for k in lib.keys()}
 print(json.dumps({"seen": seen}))
 """
 
-RECREATE_VARIANTS = [("reading", "ro"), ("reading", "rw"), ("writing", "rw")]
+# (session inside, how the surviving handle was opened, what the creator stores: "any" = records of random sizes; "same-size" =
+#  a size-preserving rewrite of the old contents (same comment length, same key lengths, same value lengths, other keys and
+#  values: the nightly job that rebuilds "run-0007" as "run-0008"); "same-size-same-last-record" = the same, but the LAST record
+#  keeps its key.  With equal sizes nothing but the contents tells a long-lived handle that its index is out of date.)
+RECREATE_VARIANTS = [("reading", "ro", "any"), ("reading", "rw", "any"), ("writing", "rw", "any"),
+                     ("reading", "ro", "same-size"), ("reading", "rw", "same-size"),
+                     ("reading", "ro", "same-size-same-last-record"), ("reading", "rw", "same-size-same-last-record")]
 
 
 def run_recreate(spec, ctx):
@@ -771,24 +928,37 @@ def run_recreate(spec, ctx):
     from vmon.models.kvmap import scan, ScanError
 
     for j in range(spec["n"]):
-        kind, how = RECREATE_VARIANTS[(spec["chunk"] + j) % len(RECREATE_VARIANTS)]
-        case = ("recreate", spec["chunk"], j, kind, how)
+        kind, how, sizes = RECREATE_VARIANTS[(spec["chunk"] * spec["n"] + j) % len(RECREATE_VARIANTS)]
+        case = ("recreate", spec["chunk"], j, kind, how) if sizes == "any" else ("recreate", spec["chunk"], j, kind, how, sizes)
+        vtag = "recreate" if sizes == "any" else f"recreate[{sizes}]"
         if not ctx.want(case):
             continue
         rng = ctx.rng(*case)
         root = ctx.tmp / f"rc{j}"
         root.mkdir()
         path = root / "lib.ukv"
-        maker = Collection(path, UkvCollectionBackend, readonly=False, overwrite=True, comment="c" * rng.choice([0, 5, 50]))
+        old_comment = "c" * rng.choice([0, 5, 50])
+        maker = Collection(path, UkvCollectionBackend, readonly=False, overwrite=True, comment=old_comment)
         want = {f"k{i}": rng.randbytes(rng.choice([1, 40, 3000, 20000])) for i in range(rng.randrange(3, 7))}
         with maker.writing():
             for k, val in want.items():
                 maker[k] = val
         new = [(f"n{i}", rng.randbytes(rng.choice([0, 10, 500])).hex()) for i in range(rng.randrange(1, 4))]
         bufsize = rng.choice([0, 4096, 10**6])
-        par = {"syspath": [p for p in sys.path if p], "root": str(root), "path": str(path), "records": new,
+        par = {"syspath": [p for p in sys.path if p], "root": str(root), "path": str(path),
                "comment": "r" * rng.choice([0, 5, 64]), "bufsize": rng.choice([0, 4096])}
-        b = subprocess.Popen([sys.executable, "-c", RECREATE_B % par], stdout=subprocess.PIPE, stderr=subprocess.PIPE, text=True)
+        if sizes != "any":
+            # same file layout, other contents (record order = insertion order of the first session)
+            ks = list(want)
+            keep = {ks[-1]} if sizes == "same-size-same-last-record" else set()
+            if sizes == "same-size" and rng.random() < 0.5:
+                keep = set(ks[:-1])                 # ... or only the last key is another one
+            new = [(k if k in keep else "n" + k[1:], rng.randbytes(len(val)).hex()) for k, val in want.items()]
+            par.update(comment="r" * len(old_comment))
+        # (handed over in a file: a command line takes no more than 128 KiB per argument)
+        (root / "records.json").write_text(json.dumps(new))
+        b = subprocess.Popen([sys.executable, "-c", RECREATE_B % par], stdout=subprocess.PIPE, stderr=subprocess.PIPE, text=True,
+                             env=HashEnv(ctx, case)())
 
         def wait_file(name, limit):
             t0 = time.monotonic()
@@ -800,7 +970,7 @@ def run_recreate(spec, ctx):
 
         mine = Collection(path, UkvCollectionBackend) if how == "ro" else \
             Collection(path, UkvCollectionBackend, readonly=False, bufsize=bufsize)
-        if how == "ro" or rng.random() < 0.5:
+        if how == "ro" or sizes != "any" or rng.random() < 0.5:
             with mine.reading():        # the handle has run a session before
                 pass
         if not wait_file("b_ready", 120):
@@ -866,11 +1036,13 @@ def run_recreate(spec, ctx):
             ctx.inconclusive.append(f"recreate {spec['chunk']}/{j}: the other process did not finish (watchdog)")
             continue
         ctx.count("recreate.schedules")
+        if sizes != "any":
+            ctx.count("recreate.new-contents-of-the-" + sizes)
         ctx.count(f"recreate.{kind}-session-inside" + ("-on-a-read-only-handle" if how == "ro" else ""))
         if returned_early:
             ctx.count("recreate.constructor-returned-while-the-session-was-inside")
-        ctx.case(case, dkey=(kind, how, len(want), len(new), bufsize), nontrivial=True,
-                 sample={"session_inside": kind, "handle": how, "records_before": len(want), "records_of_the_creator": len(new),
+        ctx.case(case, dkey=(kind, how, sizes, len(want), len(new), bufsize), nontrivial=True,
+                 sample={"session_inside": kind, "handle": how, "new_contents": sizes, "records_before": len(want), "records_of_the_creator": len(new),
                          "constructor_returned_while_inside": returned_early})
         seen_keys = set()
         for key, wit in bad:
@@ -893,18 +1065,142 @@ def run_recreate(spec, ctx):
             with mine.reading(timeout=30):
                 ks = set(mine.keys())
                 if ks != set(hard):
-                    ctx.violation("recreate:surviving-handle:listed-keys-differ-afterwards", case=case, session_inside=kind,
+                    ctx.violation(f"{vtag}:surviving-handle:listed-keys-differ-afterwards", case=case, session_inside=kind,
                                   missing=sorted(set(hard) - ks)[:4], extra=sorted(ks - set(hard))[:4])
                 elif any(mine[k] != hard[k] for k in hard):
-                    ctx.violation("recreate:surviving-handle:record-altered-afterwards", case=case, session_inside=kind)
+                    ctx.violation(f"{vtag}:surviving-handle:record-altered-afterwards", case=case, session_inside=kind)
         except Exception as e:  # noqa
-            ctx.violation(f"recreate:surviving-handle:next-session-raises:{type(e).__name__}", case=case, err=repr(e)[:200])
+            ctx.violation(f"{vtag}:surviving-handle:next-session-raises:{type(e).__name__}", case=case, err=repr(e)[:200])
         try:
             _, _, _, recs, _ = scan(path.read_bytes())
             if {k.decode(): val for k, val, _ in recs} != hard or len(recs) != len(hard):
                 ctx.violation("recreate:final-file-differs", case=case, session_inside=kind, n_file=len(recs), n_expected=len(hard))
         except ScanError as e:
             ctx.violation("recreate:final-file-not-a-clean-record-sequence", case=case, session_inside=kind, err=str(e))
+
+
+# ------------------------------------------------------------------------------------------------
+# exitqueue: a process ENDS while its buffered handle still holds queued records, another process is inside a session
+
+EXIT_P = LATE_COMMON + r"""
+lib = Collection(path, UkvCollectionBackend, readonly=False, bufsize=10**6)
+if %(prior)r:
+    with lib.reading(timeout=30):
+        pass
+err = None
+try:
+    with lib.writing(timeout=30):
+        for k, v in %(records)r:
+            lib[k] = bytes.fromhex(v)
+except Exception as e:
+    err = type(e).__name__
+print(json.dumps({"raised": err}), flush=True)
+touch("p_failed")
+wait_for("p_exit", timeout=120)
+# ... the process ends here (%(how)s); whatever its handle still holds in its buffer is not inside any session any more
+if %(how)r == "sys.exit":
+    sys.exit(0)
+"""
+
+
+def run_exitqueue(spec, ctx):
+    """Process P runs a writing session on a buffered handle whose exit flush is interrupted by a rejected record (a key too
+    long for the file format): the records queued behind it stay in the buffer.  P then terminates normally WHILE a session
+    of this process is inside.  Rule: nothing but a session touches the file, so the file's bytes do not change while this
+    process is inside its session, whatever P's termination does; afterwards the records of all completed sessions are
+    there, complete, and anything else in the file is a record P had accepted (in limbo), complete as well."""
+    import time
+    from molli.storage import Collection, UkvCollectionBackend
+    from vmon.models.kvmap import scan, ScanError
+
+    for j in range(spec["n"]):
+        kind = ("writing", "reading")[(spec["chunk"] + j) % 2]
+        case = ("exitqueue", spec["chunk"], j, kind)
+        if not ctx.want(case):
+            continue
+        rng = ctx.rng(*case)
+        root = ctx.tmp / f"eq{j}"
+        root.mkdir()
+        path = root / "lib.ukv"
+        c0 = Collection(path, UkvCollectionBackend, readonly=False, overwrite=True, bufsize=0)
+        hard = {f"a{i}": rng.randbytes(rng.choice([3, 40, 400])) for i in range(rng.randrange(1, 4))}
+        with c0.writing():
+            for k, val in hard.items():
+                c0[k] = val
+        limbo = {f"p{i}": rng.randbytes(rng.choice([10, 40, 300])) for i in range(rng.randrange(1, 4))}
+        records = [(k, val.hex()) for k, val in limbo.items()]
+        # the rejected record: first in the queue, or behind one that the flush stores before it is interrupted
+        records.insert(rng.choice([0, 0, 1]), ("K" * rng.randrange(256, 400), b"rejected by the exit flush".hex()))
+        par = {"syspath": [p for p in sys.path if p], "root": str(root), "path": str(path), "records": records,
+               "prior": rng.random() < 0.5, "how": rng.choice(["falling off the end", "sys.exit"])}
+        p = subprocess.Popen([sys.executable, "-c", EXIT_P % par], stdout=subprocess.PIPE, stderr=subprocess.PIPE, text=True,
+                             env=HashEnv(ctx, case)())
+        t0 = time.monotonic()
+        while not (root / "p_failed").exists() and p.poll() is None and time.monotonic() - t0 < 120:
+            time.sleep(0.01)
+        if not (root / "p_failed").exists():
+            p.kill()
+            ctx.inconclusive.append(f"exitqueue {spec['chunk']}/{j}: the process did not reach the end of its failing session")
+            continue
+        mine = c0 if kind == "writing" else Collection(path, UkvCollectionBackend)
+        changed, ended_inside, own = None, False, {}
+        try:
+            with (mine.writing(timeout=30) if kind == "writing" else mine.reading(timeout=30)):
+                if kind == "writing":
+                    own["m0"] = rng.randbytes(rng.choice([5, 60]))
+                    mine["m0"] = own["m0"]
+                before = path.read_bytes()          # (what is in the file, seen through a descriptor of its own)
+                (root / "p_exit").touch()
+                try:
+                    # only shapes the schedule: P gets the time to terminate (a P that waits for the lock does not)
+                    p.wait(timeout=spec.get("settle", 20.0))
+                    ended_inside = True
+                except subprocess.TimeoutExpired:
+                    pass
+                changed = path.read_bytes() != before
+                if kind == "writing":
+                    own["m1"] = rng.randbytes(rng.choice([5, 60, 2000]))
+                    mine["m1"] = own["m1"]
+        except Exception as e:  # noqa
+            ctx.violation(f"exitqueue:{kind}-session-raises:{type(e).__name__}", case=case, err=repr(e)[:200])
+        try:
+            out, err = p.communicate(timeout=180)
+            rep = json.loads(out.strip().splitlines()[0])
+        except Exception as e:  # noqa
+            p.kill()
+            ctx.inconclusive.append(f"exitqueue {spec['chunk']}/{j}: the process did not report / finish: {e!r}"[:200])
+            continue
+        if rep["raised"] is None:
+            ctx.violation("exitqueue:oversize-key-accepted-silently", case=case)
+            continue
+        ctx.count("exitqueue.schedules")
+        if ended_inside:
+            ctx.count(f"exitqueue.process-ended-with-queued-records-while-a-{kind}-session-was-inside")
+        ctx.case(case, dkey=(kind, len(limbo), par["prior"], par["how"], records[0][0][0]), nontrivial=ended_inside,
+                 sample={"session_inside": kind, "queued_behind_the_rejected_record": len(records) - 1 - (records[0][0][0] != "K"),
+                         "process_ended_while_inside": ended_inside, "process_end": par["how"]})
+        if changed:
+            ctx.violation(f"exitqueue:file-changed-by-a-terminating-process-while-a-{kind}-session-of-another-process-was-inside",
+                          case=case, process_ended_while_inside=ended_inside)
+        hard.update(own)
+        try:
+            fh = Collection(path, UkvCollectionBackend)
+            with fh.reading(timeout=30):
+                got = {k: fh[k] for k in fh.keys()}
+            lost = sorted(k for k in hard if k not in got)
+            if lost:
+                ctx.violation("exitqueue:record-of-a-completed-session-lost", case=case, missing=lost[:4])
+            elif any(got[k] != hard[k] for k in hard):
+                ctx.violation("exitqueue:record-of-a-completed-session-altered", case=case,
+                              keys=sorted(k for k in hard if got[k] != hard[k])[:4])
+            extra = sorted(k for k in got if k not in hard and (k not in limbo or got[k] != limbo[k]))
+            if extra:
+                ctx.violation("exitqueue:unknown-or-incomplete-record-afterwards", case=case, keys=[k[:12] for k in extra][:4])
+            scan(path.read_bytes())
+        except ScanError as e:
+            ctx.violation("exitqueue:final-file-not-a-clean-record-sequence", case=case, err=str(e))
+        except Exception as e:  # noqa
+            ctx.violation(f"exitqueue:fresh-handle-session-raises:{type(e).__name__}", case=case, err=repr(e)[:200])
 
 
 # ------------------------------------------------------------------------------------------------
@@ -1132,7 +1428,8 @@ def run_fail_partial_write(ctx):
                 c0[k] = v
         par = {"syspath": [p for p in sys.path if p], "path": str(path), "bufsize": bufsize, "size": size, "room": room}
         try:
-            p = subprocess.run([sys.executable, "-c", PARTIAL_WRITER % par], capture_output=True, text=True, timeout=120)
+            hashenv = HashEnv(ctx, case)
+            p = subprocess.run([sys.executable, "-c", PARTIAL_WRITER % par], capture_output=True, text=True, timeout=120, env=hashenv())
             out = json.loads(p.stdout.strip().splitlines()[-1])
         except Exception as e:  # noqa
             ctx.inconclusive.append(f"partial-write writer did not report: {e!r}"[:200])
@@ -1149,7 +1446,7 @@ def run_fail_partial_write(ctx):
         # a fresh process appends a SHORT record, then readers (long-lived handle c0 and a fresh one) look
         code = PROBE % {"syspath": [p for p in sys.path if p], "path": str(path), "newkey": "after"}
         try:
-            pr = subprocess.run([sys.executable, "-c", code], capture_output=True, text=True, timeout=60)
+            pr = subprocess.run([sys.executable, "-c", code], capture_output=True, text=True, timeout=60, env=hashenv())
             seen = json.loads(pr.stdout.strip().splitlines()[-1])
         except Exception as e:  # noqa
             ctx.violation(f"fail:{tag}:fresh-process-session-failed", case=case, err=repr(e)[:200])
@@ -1179,10 +1476,186 @@ def run_fail_partial_write(ctx):
             ctx.violation(f"fail:{tag}:file-not-a-clean-record-sequence", case=case, err=str(e))
 
 
+CLOSE_REFUSED = LATE_COMMON + r"""
+import resource, signal
+lib = Collection(path, UkvCollectionBackend, readonly=False, bufsize=%(bufsize)r)
+if %(prior)r:
+    with lib.reading(timeout=20):
+        pass
+def fds():
+    out = []
+    for f in os.listdir("/proc/self/fd"):
+        try:
+            if os.path.realpath("/proc/self/fd/" + f) == os.path.realpath(path):
+                out.append(f)
+        except OSError:
+            pass
+    return out
+signal.signal(signal.SIGXFSZ, signal.SIG_IGN)          # the write then fails with EFBIG
+resource.setrlimit(resource.RLIMIT_FSIZE, (os.path.getsize(path) + %(room)r, resource.RLIM_INFINITY))
+raised = None
+try:
+    with lib.writing(timeout=20):
+        # smaller than the stream buffer: the bytes are handed to the operating system when the file is closed
+        lib["b"] = b"B" * %(size)r
+except BaseException as e:
+    raised = type(e).__name__
+resource.setrlimit(resource.RLIMIT_FSIZE, (resource.RLIM_INFINITY, resource.RLIM_INFINITY))       # room again
+rep = {"raised": raised, "file_left_open": len(fds()), "next": []}
+touch("a_failed")
+wait_for("go_on", timeout=120)
+# the SAME handle goes on: two more rounds of a reading and a writing session
+for attempt in (1, 2):
+    r = {"listed": None, "unreadable": {}, "values": {}, "reading_raises": None, "writing_raises": None}
+    try:
+        with lib.reading(timeout=20):
+            r["listed"] = sorted(lib.keys())
+            for k in r["listed"]:
+                try:
+                    r["values"][k] = lib[k].hex()
+                except Exception as e:
+                    r["unreadable"][k] = type(e).__name__
+    except Exception as e:
+        r["reading_raises"] = type(e).__name__ + ": " + str(e)[:80]
+    try:
+        with lib.writing(timeout=20):
+            lib["c%%d" %% attempt] = b"value-of-c%%d" %% attempt
+    except Exception as e:
+        r["writing_raises"] = type(e).__name__ + ": " + str(e)[:80]
+    rep["next"].append(r)
+rep["file_left_open_at_the_end"] = len(fds())
+print(json.dumps(rep))
+"""
+
+
+def run_fail_close_refused(ctx):
+    """The operating system refuses the bytes the stream still buffers when the file is closed at session exit (file-size
+    limit; a full disk does the same): the REAL close fails.  The session ends with that exception; the file is closed
+    (no descriptor left), a fresh process runs a session, the SAME handle then runs further sessions (each proceeds, lists
+    only records that are there and complete), and after the failing process has ended the records of all completed
+    sessions are intact."""
+    import time
+    from molli.storage import Collection, UkvCollectionBackend
+    from vmon.models.kvmap import scan, ScanError
+
+    tag = "close-refused-by-os"
+    for bufsize, size, room, prior in ((0, 100, 20, False), (10**6, 100, 20, True), (4096, 1500, 0, False), (0, 3000, 700, True),
+                                       (-1, 40, 3, True)):
+        case = ("fail", tag, bufsize, size, room, prior)
+        if not ctx.want(case):
+            continue
+        root = ctx.tmp / f"closeref-{bufsize}-{size}"
+        root.mkdir()
+        path = root / "lib.ukv"
+        c0 = Collection(path, UkvCollectionBackend, readonly=False, overwrite=True, bufsize=0)
+        committed = {f"a{i}": f"value-{i}".encode() * 3 for i in range(3)}
+        with c0.writing():
+            for k, v in committed.items():
+                c0[k] = v
+        hashenv = HashEnv(ctx, case)
+        par = {"syspath": [p for p in sys.path if p], "root": str(root), "path": str(path), "bufsize": bufsize, "size": size,
+               "room": room, "prior": prior}
+        a = subprocess.Popen([sys.executable, "-c", CLOSE_REFUSED % par], stdout=subprocess.PIPE, stderr=subprocess.PIPE, text=True,
+                             env=hashenv())
+        t0 = time.monotonic()
+        while not (root / "a_failed").exists() and a.poll() is None and time.monotonic() - t0 < 120:
+            time.sleep(0.01)
+        if not (root / "a_failed").exists():
+            a.kill()
+            ctx.inconclusive.append(f"close-refused: the writer did not reach the end of its session: {a.communicate()[1][-200:]}")
+            continue
+        # a fresh process gets the lock, stores a record in a completed session (the failing process is still alive)
+        code = PROBE % {"syspath": [p for p in sys.path if p], "path": str(path), "newkey": "probe"}
+        probe = None
+        try:
+            pr = subprocess.run([sys.executable, "-c", code], capture_output=True, text=True, timeout=60, env=hashenv())
+            probe = json.loads(pr.stdout.strip().splitlines()[-1])
+        except subprocess.TimeoutExpired:
+            ctx.violation(f"fail:{tag}:fresh-process-blocked-forever", case=case)
+        except Exception:  # noqa
+            ctx.violation(f"fail:{tag}:fresh-process-session-failed", case=case, stderr=pr.stderr[-300:])
+        (root / "go_on").touch()
+        try:
+            out, err = a.communicate(timeout=180)
+            rep = json.loads(out.strip().splitlines()[-1])
+        except Exception as e:  # noqa
+            a.kill()
+            ctx.violation(f"fail:{tag}:failing-process-did-not-finish-its-later-sessions", case=case, err=repr(e)[:200])
+            continue
+        ctx.count("fail.cases")
+        ctx.case(case, dkey=case, nontrivial=True, sample={"step": tag, "bufsize": bufsize, "value": size, "room_left": room,
+                                                           "raised": rep["raised"]})
+        if rep["raised"] is None:
+            ctx.inconclusive.append("close-refused: the size limit did not make the session fail")
+            continue
+        ctx.count("fail.close-refused-by-the-os")
+        if rep["file_left_open"]:
+            ctx.violation(f"fail:{tag}:file-left-open-after-failed-session", case=case, fds=rep["file_left_open"])
+        if probe is not None:
+            if probe.get("lock") != "ok":
+                ctx.violation(f"fail:{tag}:lock-not-released-after-failed-session", case=case)
+            else:
+                ctx.count("fail.fresh-process-acquired")
+                got = {k: bytes.fromhex(v) for k, v in probe["records"].items()}
+                if got != dict(committed, probe=b"from-fresh-process"):
+                    ctx.violation(f"fail:{tag}:fresh-process-sees-other-than-the-completed-records", case=case,
+                                  listed=[k[:12] for k in sorted(got)][:8])
+        # the same handle afterwards
+        stored = dict(committed)
+        if probe is not None and probe.get("lock") == "ok":
+            stored["probe"] = b"from-fresh-process"
+        for n, r in enumerate(rep["next"], 1):
+            which = "next-session" if n == 1 else "second-next-session"
+            ctx.count("fail.sessions-of-the-same-handle-after-a-refused-close")
+            if r["reading_raises"]:
+                ctx.violation(f"fail:{tag}:same-handle-{which}-raises:{r['reading_raises'].split(':')[0]}", case=case,
+                              err=r["reading_raises"], session="reading")
+            if r["listed"] is not None:
+                never = sorted(k for k in r["listed"] if k not in stored)
+                if never:
+                    ctx.violation(f"fail:{tag}:same-handle-{which}-lists-a-record-that-was-never-stored", case=case, listed=r["listed"][:8])
+                missing = sorted(k for k in stored if k not in r["listed"])
+                if missing:
+                    ctx.violation(f"fail:{tag}:same-handle-{which}-misses-records", case=case, missing=missing[:4])
+                if r["unreadable"]:
+                    ctx.violation(f"fail:{tag}:same-handle-{which}-listed-record-unreadable:{sorted(set(r['unreadable'].values()))[0]}",
+                                  case=case, keys=sorted(r["unreadable"])[:4])
+                if any(k in stored and bytes.fromhex(v) != stored[k] for k, v in r["values"].items()):
+                    ctx.violation(f"fail:{tag}:same-handle-{which}-earlier-record-altered", case=case)
+            if r["writing_raises"]:
+                ctx.violation(f"fail:{tag}:same-handle-{which}-raises:{r['writing_raises'].split(':')[0]}", case=case,
+                              err=r["writing_raises"], session="writing")
+            else:
+                stored[f"c{n}"] = f"value-of-c{n}".encode()
+        if rep["file_left_open_at_the_end"]:
+            ctx.violation(f"fail:{tag}:file-left-open-after-later-sessions", case=case)
+        # the failing process has ended: every completed session's records are there, nothing else
+        try:
+            views = {}
+            with c0.reading(timeout=10):
+                views["long-lived-handle"] = {k: c0[k] for k in c0.keys()}
+            fh = Collection(path, UkvCollectionBackend, readonly=True)
+            with fh.reading(timeout=10):
+                views["fresh-handle"] = {k: fh[k] for k in fh.keys()}
+            for who, got in views.items():
+                if got != stored:
+                    ctx.violation(f"fail:{tag}:{who}-sees-other-than-the-completed-records-after-the-process-ended", case=case,
+                                  extra=[k[:12] for k in sorted(set(got) - set(stored))][:4],
+                                  missing=sorted(set(stored) - set(got))[:4],
+                                  altered=sorted(k for k in stored if k in got and got[k] != stored[k])[:4])
+            scan(path.read_bytes())
+        except ScanError as e:
+            ctx.violation(f"fail:{tag}:file-not-a-clean-record-sequence", case=case, err=str(e))
+        except Exception as e:  # noqa
+            ctx.violation(f"fail:{tag}:reader-raises:{type(e).__name__}", case=case, err=repr(e)[:200])
+
+
 def run_fail(spec, ctx):
     from molli.storage import Collection, UkvCollectionBackend
     from vmon.models.kvmap import scan, ScanError
 
+    if spec["chunk"] == 2:
+        run_fail_close_refused(ctx)
     if spec["chunk"] == 0:
         run_fail_first_put(ctx)
     if spec["chunk"] == 1:
@@ -1303,7 +1776,8 @@ def run_fail(spec, ctx):
         # a fresh process must get the write lock (this process, the only possible holder, is still alive)
         code = PROBE % {"syspath": [p for p in sys.path if p], "path": str(path), "newkey": "probe"}
         try:
-            p = subprocess.run([sys.executable, "-c", code], capture_output=True, text=True, timeout=60)
+            p = subprocess.run([sys.executable, "-c", code], capture_output=True, text=True, timeout=60,
+                               env=HashEnv(ctx, case)())
         except subprocess.TimeoutExpired:
             ctx.violation(f"fail:{tag}:fresh-process-blocked-forever", case=case)
             continue
